@@ -83,8 +83,8 @@ def p_dead_branch_corrupts_code(case, rec, exp):
     """script (completion-value) mode: statements after a direct break/continue are compiled in 'dummy mode';
     a break/continue among them that targets an outer block is patched into the REAL program at the dummy
     position (host panic or wrong control flow)."""
-    if case.get("kind") != "prog" or case.get("fn"):
-        return False
+    if case.get("kind") != "prog" or case.get("fn") or _agrees_I(exp):
+        return False   # model I does not contain this corruption: an observation equal to I is something else
     br = lambda s: s["k"] in ("break", "cont")
     for l in _lists(case.get("prog")):
         for i, s in enumerate(l):
@@ -95,11 +95,66 @@ def p_dead_branch_corrupts_code(case, rec, exp):
     return False
 
 
+def p_finally_nested_branch_value(case, rec, exp):
+    """script mode: a finally block containing a break/continue that is NOT a direct statement of the finally list
+    (nested in a labelled block / if / ...); only the completion VALUE differs and the transcription I agrees."""
+    if case.get("kind") != "prog" or case.get("fn") or not _agrees_I(exp):
+        return False
+    if "(OValue" not in (rec.get("coq") or "").rsplit("]", 1)[-1]:
+        return False
+    br = lambda s: s["k"] in ("break", "cont")
+    for s in _all_stmts(case.get("prog")):
+        if s["k"] == "try" and s.get("hf"):
+            c = s.get("c") or []
+            if not any(br(x) for x in c) and _any(c, br):
+                return True
+    return False
+
+
+def _value_only_script(case, rec, exp):
+    return (case.get("kind") == "prog" and not case.get("fn") and _agrees_I(exp)
+            and "(OValue" in (rec.get("coq") or "").rsplit("]", 1)[-1])
+
+
+def p_caught_throw_stale_value(case, rec, exp):
+    """script mode, only the completion VALUE differs, I agrees: a try/catch whose catch list has no direct
+    value-producing statement (it can complete empty) and whose body produces a value somewhere."""
+    if not _value_only_script(case, rec, exp):
+        return False
+    prod = lambda s: s["k"] in ("ev", "val")
+    for s in _all_stmts(case.get("prog")):
+        if s["k"] == "try" and s.get("hc") and not any(prod(x) for x in (s.get("b") or [])) and _any(s.get("a"), prod):
+            return True
+    return False
+
+
+def p_nested_branch_skips_last_producing(case, rec, exp):
+    """script mode, only the completion VALUE differs, I agrees: a statement list with a value-producing statement
+    followed by a sibling that is not itself break/continue but contains one."""
+    if not _value_only_script(case, rec, exp):
+        return False
+    br = lambda s: s["k"] in ("break", "cont")
+    producing = lambda s: s["k"] not in ("break", "cont")
+    for l in _lists(case.get("prog")):
+        seen = False
+        for s in l:
+            if br(s):
+                break
+            if seen and _any(_kids(s), br):
+                return True
+            if producing(s):
+                seen = True
+    return False
+
+
 PREDICATES = {
     "C08.catch_catches_own_finally_throw": p_catch_catches_finally_throw,
     "C08.nested_return_in_finally_clobbers_pending_return": p_nested_return_clobbers,
     "C08.iterator_return_runs_after_stack_overflow": p_return_after_stack_overflow,
     "C08.dead_branch_after_branch_corrupts_code": p_dead_branch_corrupts_code,
+    "C08.finally_nested_branch_keeps_stale_completion_value": p_finally_nested_branch_value,
+    "C08.caught_throw_keeps_stale_completion_value": p_caught_throw_stale_value,
+    "C08.nested_branch_skips_last_producing_statement": p_nested_branch_skips_last_producing,
 }
 
 
@@ -181,7 +236,8 @@ CFG = {
     "prop_file": "Properties/C08.v",
     "run_modules": ["Verif.C08.Run", "Verif.C08.RunI"],
     "coq_dirs": ["C08"],
-    "n": {"quick": 3000, "thorough": 200000},
+    # VERIF_C08_N: development override (mutant runs on a loaded machine)
+    "n": {"quick": int(os.environ.get("VERIF_C08_N", "3000")), "thorough": 200000},
     "shard": 250,
     "max_report": 12,
     "level": "proof",
@@ -195,8 +251,9 @@ CFG = {
              "(destructuring, spread, Array.from, Map/Set constructors, Promise.all, yield*); non-trivial = at least one event "
              "and a finally block, a for-of or a built-in consumer is involved; distinct = by hash of the case"),
     "theorem_names": ["finally_exactly_once", "finally_exactly_once_innermost_first", "finally_overrides",
-                      "iterator_closed_once", "completion_value_rules", "uncatchable_runs_nothing_S",
-                      "compile_control_correct_partial", "uncatchable_runs_nothing_partial"],
+                      "iterator_closed_once", "completion_value_rules", "uncatchable_runs_nothing_S", "trace_in_syntax",
+                      "finally_throw_not_caught_by_own_catch", "pending_return_value_refuted", "finally_nested_break_value_refuted", "caught_throw_stale_value_refuted", "nested_branch_loses_value_refuted", "uncatchable_runs_nothing_refuted",
+                      "uncatchable_runs_nothing_partial", "interrupt_runs_nothing", "leaveTry_leaveFinally_roundtrip"],
     "allowed_axioms": [],
     "trusted_base": [
         "Coq 8.16.1 kernel + vm_compute (no native_compute); theorems closed under the global context (no axioms)",
@@ -217,8 +274,9 @@ CFG = {
                  "re-establishes the pending completion, that a for-of calls return() exactly once iff the loop is left abruptly by "
                  "its body and never after exhaustion or a throwing next(), the UpdateEmpty completion-value rules, and that "
                  "uncatchable payloads run nothing. goja's compiler/VM skeleton is transcribed as model I (compile + vm_step); "
-                 "compile_control_correct is proved for a sub-fragment (partial, see evidence), and uncatchable_runs_nothing is "
-                 "refuted for iterator close (F12). Both models are tied to /repo on every run: 3000 (quick) / 200000 (thorough) "
+                 "compile_control_correct (I refines S) is NOT proved: it is refuted on the current tree by two witnesses "
+                 "(C08-N2, F12; C08-N1 was repaired in /repo and the model follows); on I only local lemmas hold (uncatchable unwinding is silent under an interrupt or without open "
+                 "iterators, leaveTry/leaveFinally round trip). Both models are tied to /repo on every run: 3000 (quick) / 200000 (thorough) "
                  "generated programs are run in goja and their event log + final completion compared with S (oracle) and I by vm_compute."),
         "note": ("trusted: Coq kernel + vm_compute; the hand transcription (coq/C08/Model.v); the Go harness (JS printer, event log). "
                  "Open findings on the current tree are recognised by narrow predicates AND by agreement with the faithful model I."),
